@@ -12,6 +12,18 @@ package regprocessor
 // Draws: math/rand is re-seeded before every call, so the float the code draws is known exactly
 // (k / 2^63); the 0-9999 gate draw is made irrelevant by using 0 % and 100 % in correspondence cases
 // (other percentages are oracle-only); the host draw inside the subnet is read off the result.
+//
+// The processor of every case is derived from one built by the real NewRegProcessorNoAuth (real zmq
+// socket on an ephemeral port, closed again; one construction per distinct configuration): the split
+// by transport, the cumulative weights, the validated percentages, the exclusions and the enforce flag
+// are the constructor's; only the sender, the selector, the override list and the authentication are
+// replaced.  The authenticated constructor (newRegProcessor) is run once per process and swept as it is.
+//
+// Station side: the forwarded bytes go through the real parseRegMessage (oracle: same phantom / port /
+// parameters as the client; never fewer registrations than from the same message without the
+// response), and, per address family, through the real NewRegistrationC2SWrapper next to the model's
+// stationApply (driver line `station|…`), which gets the station's own derivation (the same call on
+// the message without the response, with the client's / the response's parameters) as a parameter.
 
 import (
 	"bufio"
@@ -39,6 +51,7 @@ import (
 	"github.com/refraction-networking/conjure/pkg/phantoms"
 	"github.com/refraction-networking/conjure/pkg/regserver/overrides"
 	"github.com/refraction-networking/conjure/pkg/station/lib"
+	stationlog "github.com/refraction-networking/conjure/pkg/station/log"
 	"github.com/refraction-networking/conjure/pkg/transports"
 	"github.com/refraction-networking/conjure/pkg/transports/wrapping/min"
 	"github.com/refraction-networking/conjure/pkg/transports/wrapping/prefix"
@@ -54,13 +67,21 @@ import (
 var errC12Sel4 = errors.New("c12: scripted IPv4 selection failure")
 var errC12Sel6 = errors.New("c12: scripted IPv6 selection failure")
 
+type c12SelCall struct {
+	seed     string
+	gen, ver uint
+	v6       bool
+}
+
 type c12Selector struct {
 	v4, v6     net.IP
 	rp4, rp6   bool
 	err4, err6 bool
+	calls      []c12SelCall
 }
 
 func (s *c12Selector) Select(seed []byte, gen uint, ver uint, v6 bool) (*phantoms.PhantomIP, error) {
+	s.calls = append(s.calls, c12SelCall{hex.EncodeToString(seed), gen, ver, v6})
 	if v6 {
 		if s.err6 {
 			return nil, errC12Sel6
@@ -92,9 +113,18 @@ func (s *c12Sender) Close() error { return nil }
 
 type c12Subnet struct {
 	cidr     string
-	weight   int
+	weight   float64 // a multiple of 1/8 (exact in float64); the model gets the number of eighths
 	port     uint32
 	prefixID prefix.PrefixID
+}
+
+// w8: the weight in eighths, the natural number the model works with (the choice is scale invariant).
+func (s c12Subnet) w8() int {
+	w := s.weight * 8
+	if w < 0 || w != math.Trunc(w) {
+		panic(fmt.Sprintf("c12: weight %v is not a non-negative multiple of 1/8", s.weight))
+	}
+	return int(w)
 }
 
 type c12Case struct {
@@ -144,17 +174,20 @@ func c12MkSubnets(l []c12Subnet, transport string) []Subnet {
 		if err != nil {
 			panic(err)
 		}
-		out = append(out, Subnet{CIDR: Ipnet{n}, Weight: float64(s.weight), Port: s.port, Transport: transport, PrefixId: s.prefixID})
+		out = append(out, Subnet{CIDR: Ipnet{n}, Weight: s.weight, Port: s.port, Transport: transport, PrefixId: s.prefixID})
 	}
 	return out
 }
 
-// processor builds the RegProcessor the way newRegProcessor does, minus the zmq socket.
-func (c *c12Case) processor(snd *c12Sender) *RegProcessor {
-	var all []Subnet
+// c12Built caches, per configuration, a processor built by the real NewRegProcessorNoAuth.
+var c12Built = map[string]*RegProcessor{}
+var c12CtorErr error
+
+func (c *c12Case) config() (all []Subnet, ex []Subnet, key string) {
 	all = append(all, c12MkSubnets(c.minSub, "Min_Transport")...)
 	all = append(all, c12MkSubnets(c.pfxSub, "Prefix_Transport")...)
-	var ex []Subnet
+	// a subnet of another transport must be dropped by the constructor
+	all = append(all, c12MkSubnets([]c12Subnet{{"10.250.0.0/24", 4, 443, prefix.Min}}, "Obfs4_Transport")...)
 	for _, e := range c.excl {
 		_, n, err := net.ParseCIDR(e)
 		if err != nil {
@@ -162,21 +195,41 @@ func (c *c12Case) processor(snd *c12Sender) *RegProcessor {
 		}
 		ex = append(ex, Subnet{CIDR: Ipnet{n}})
 	}
-	pm, pp := validateOverridePercentages(c.pctMin, c.pctPfx)
-	mins, pfxs := splitOverrideSubnets(all)
+	key = fmt.Sprintf("%v|%s|%s|%s|%v|%v", c.enforce, c12Subnets(c.minSub), c12Subnets(c.pfxSub), strings.Join(c.excl, ","), c.pctMin, c.pctPfx)
+	return
+}
+
+// processor: the fields a constructor derives from the configuration come from the real
+// NewRegProcessorNoAuth; sender, selector, overrides and authentication are the case's.
+func (c *c12Case) processor(snd *c12Sender) *RegProcessor {
+	all, ex, key := c.config()
+	b := c12Built[key]
+	if b == nil {
+		var err error
+		b, err = NewRegProcessorNoAuth("127.0.0.1", 0, c12Metrics, c.enforce, all, ex, c.pctMin, c.pctPfx)
+		if err != nil {
+			c12CtorErr = err
+			panic("c12: NewRegProcessorNoAuth failed: " + err.Error())
+		}
+		b.Close()
+		c12Built[key] = b
+	}
 	p := &RegProcessor{
 		sock:                                   snd,
 		metrics:                                c12Metrics,
 		authenticated:                          c.auth,
 		ipSelector:                             &c.sel,
-		enforceSubnetOverrides:                 c.enforce,
-		minOverrideSubnets:                     mins,
-		prefixOverrideSubnets:                  pfxs,
-		minOverrideSubnetsCumulativeWeights:    processOverrideSubnetsWeights(mins),
-		prefixOverrideSubnetsCumulativeWeights: processOverrideSubnetsWeights(pfxs),
-		exclusionsFromOverride:                 ex,
-		prcntMinRegsToOverride:                 pm,
-		prcntPrefixRegsToOverride:              pp,
+		enforceSubnetOverrides:                 b.enforceSubnetOverrides,
+		minOverrideSubnets:                     b.minOverrideSubnets,
+		prefixOverrideSubnets:                  b.prefixOverrideSubnets,
+		minOverrideSubnetsCumulativeWeights:    b.minOverrideSubnetsCumulativeWeights,
+		prefixOverrideSubnetsCumulativeWeights: b.prefixOverrideSubnetsCumulativeWeights,
+		exclusionsFromOverride:                 b.exclusionsFromOverride,
+		prcntMinRegsToOverride:                 b.prcntMinRegsToOverride,
+		prcntPrefixRegsToOverride:              b.prcntPrefixRegsToOverride,
+	}
+	if b.authenticated || b.regOverrides != nil || b.privkey != nil {
+		panic("c12: NewRegProcessorNoAuth built an authenticated processor / one with overrides")
 	}
 	if c.auth {
 		p.privkey = c12Priv
@@ -351,7 +404,7 @@ func (s c12Subnet) model() string {
 			pfx = fmt.Sprintf("%d~%s~%d", int32(px.ID()), hex.EncodeToString(px.Bytes()), px.FlushPolicy())
 		}
 	}
-	return fmt.Sprintf("%s:%d:%d:%d:%d:%s", vlib.B(isv4), base, ones, s.weight, s.port, pfx)
+	return fmt.Sprintf("%s:%d:%d:%d:%d:%s", vlib.B(isv4), base, ones, s.w8(), s.port, pfx)
 }
 
 func c12Subnets(l []c12Subnet) string {
@@ -379,6 +432,7 @@ type c12Out struct {
 	resp       *pb.RegistrationResponse
 	chosen     int // index of the override subnet containing a substituted address, -1 none
 	fails      [][2]string
+	subs       []c12Sub // further correspondence cases made from this one (station side)
 }
 
 func c12InNet(cidr string, a uint32) bool {
@@ -444,6 +498,30 @@ func c12Run(c *c12Case, out *vlib.Out) (res c12Out) {
 		defer func() { panicked = recover() }()
 		resp, err = p.RegisterBidirectional(req, c.method, c.client)
 	}()
+
+	// the selector was asked with the seed derived from the client's secret, the client's generation and
+	// library version, once per requested family (IPv4 first)
+	{
+		var want []bool
+		if !c.noPayload && c.v4 {
+			want = append(want, false)
+		}
+		if !c.noPayload && c.v6 && !(c.v4 && (c.sel.err4 || c.sel.v4.To4() == nil)) {
+			want = append(want, true)
+		}
+		okArgs := len(c.sel.calls) == len(want)
+		for i, k := range c.sel.calls {
+			if !okArgs {
+				break
+			}
+			okArgs = k.v6 == want[i] && k.seed == hex.EncodeToString(seed) && k.gen == uint(c.gen) && k.ver == libver
+		}
+		if !okArgs {
+			fail("C12:selector-arguments", fmt.Sprintf("phantom selector called with %+v; expected families %v with seed %x, generation %d, library version %d",
+				c.sel.calls, want, seed, c.gen, libver))
+		}
+		c.sel.calls = nil
+	}
 
 	// parameter override selected (for the model): known in advance except for the random prefix
 	ov := "-"
@@ -549,8 +627,11 @@ func c12Run(c *c12Case, out *vlib.Out) (res c12Out) {
 			signed = c12Resp(sr)
 		}
 	}
+	secretKept := string(fwd.SharedSecret) == string(orig.SharedSecret)
+	payloadKept := proto.Equal(fwd.RegistrationPayload, orig.RegistrationPayload) || c12SameButTypeURL(fwd.RegistrationPayload, orig.RegistrationPayload)
 	res.impl = strings.Join([]string{"ok", "C=" + c12Resp(resp), "F=" + c12Resp(fwd.RegistrationResponse), "S=" + signed,
-		fmt.Sprintf("src=%d", int(fwd.GetRegistrationSource())), "addr=" + c12HexOrDash(fwd.RegistrationAddress)}, "|")
+		fmt.Sprintf("src=%d", int(fwd.GetRegistrationSource())), "addr=" + c12HexOrDash(fwd.RegistrationAddress),
+		"keep=" + vlib.B(secretKept) + vlib.B(payloadKept)}, "|")
 	res.nontrivial = true
 
 	// ---- oracle (independent of the model) ----
@@ -565,8 +646,15 @@ func c12Run(c *c12Case, out *vlib.Out) (res c12Out) {
 	} else if signed != "-" {
 		fail("C12:forged-signature-forwarded", "an unauthenticated registrar forwarded RegRespBytes/RegRespSignature: "+signed)
 	}
-	if !proto.Equal(fwd.RegistrationPayload, orig.RegistrationPayload) && !c12SameButTypeURL(fwd.RegistrationPayload, orig.RegistrationPayload) {
+	if !payloadKept {
 		fail("C12:payload-changed", "the forwarded registration payload differs from the client's")
+	}
+	if !secretKept {
+		fail("C12:secret-changed", "the forwarded shared secret differs from the client's")
+	}
+	if len(fwd.ProtoReflect().GetUnknown()) != 0 || fwd.DecoyAddress != nil {
+		// nothing else of the client's wrapper is forwarded (the request carries neither)
+		fail("C12:forged-response-used", "the forwarded wrapper carries fields the registrar never sets")
 	}
 	// 2. forged fields are discarded
 	if c.forged {
@@ -625,7 +713,7 @@ func c12Run(c *c12Case, out *vlib.Out) (res c12Out) {
 		out.Count(fmt.Sprintf("substituted-from-subnet:%d", res.chosen))
 	}
 	// 5. the station ends up with the same phantom, port and parameters
-	c12StationOracle(c, fwd, resp, out, fail)
+	res.subs = c12StationOracle(c, snd.got[0], fwd, resp, out, fail)
 	return
 }
 
@@ -641,37 +729,185 @@ func c12SameButTypeURL(a, b *pb.ClientToStation) bool {
 	return proto.Equal(x, y)
 }
 
-func c12StationOracle(c *c12Case, fwd *pb.C2SWrapper, resp *pb.RegistrationResponse, out *vlib.Out, fail func(string, string)) {
-	// the two conditions of parseRegMessage
-	if fwd.GetRegistrationAddress() == nil {
-		fwd.RegistrationAddress = make([]byte, 16)
+// ---------------------------------------------------------------------------------------------
+// station side
+
+// c12ParsedTok: canonical token for transport parameters in the form the station keeps them (the
+// message its transport parsed them into).
+func c12ParsedTok(p any) string {
+	if p == nil {
+		return "-"
 	}
-	src := net.IP(fwd.GetRegistrationAddress())
-	clientAny := fwd.GetRegistrationPayload().GetTransportParams()
-	var clientCopy *anypb.Any
-	if clientAny != nil {
-		clientCopy = proto.Clone(clientAny).(*anypb.Any)
+	m, ok := p.(proto.Message)
+	if !ok || !m.ProtoReflect().IsValid() {
+		return "O:other"
 	}
-	check := func(v6 bool) {
-		var reg *lib.DecoyRegistration
-		var err error
-		func() {
-			defer func() {
-				if r := recover(); r != nil {
-					err = fmt.Errorf("panic: %v", r)
-				}
-			}()
-			reg, err = c12Station.NewRegistrationC2SWrapper(fwd, v6)
-		}()
-		if err != nil || reg == nil {
-			out.Count("station:rejected")
-			return
+	b, err := proto.MarshalOptions{Deterministic: true}.Marshal(m)
+	if err != nil {
+		return "O:unmarshalable"
+	}
+	return "O:" + string(m.ProtoReflect().Descriptor().Name()) + "." + hex.EncodeToString(b)
+}
+
+// c12AnyTok: what the station's transport makes of an Any (real ParseParams as a parameter of the model).
+func c12AnyTok(tr pb.TransportType, libver uint, a *anypb.Any) string {
+	if a == nil {
+		return "-"
+	}
+	if t, ok := c12StationTransports[tr]; ok {
+		if p, err := t.ParseParams(libver, proto.Clone(a).(*anypb.Any)); err == nil && p != nil {
+			return c12ParsedTok(p)
 		}
-		out.Count("station:accepted")
+	}
+	return "O:unparsed." + hex.EncodeToString(a.Value)
+}
+
+func c12AddrTok(ip net.IP) string {
+	if ip4 := ip.To4(); ip4 != nil {
+		return fmt.Sprintf("4:%d", binary.BigEndian.Uint32(ip4))
+	}
+	return "r:" + hex.EncodeToString(ip)
+}
+
+func c12KindTok(ip net.IP) string {
+	switch {
+	case ip.To16() == nil:
+		return "i"
+	case ip.To4() != nil:
+		return "4"
+	}
+	return "6"
+}
+
+func c12StationCall(w *pb.C2SWrapper, v6 bool) (reg *lib.DecoyRegistration, err error) {
+	defer func() {
+		if r := recover(); r != nil {
+			reg, err = nil, fmt.Errorf("panic: %v", r)
+		}
+	}()
+	reg, err = c12Station.NewRegistrationC2SWrapper(w, v6)
+	if err == nil && reg == nil {
+		err = errors.New("nil registration")
+	}
+	return
+}
+
+func c12StationErrKind(err error) string {
+	m := err.Error()
+	switch {
+	case strings.HasPrefix(m, "panic:"):
+		return "PANIC " + m
+	case strings.Contains(m, "failed to build registration"), strings.Contains(m, "failed to generate keys"):
+		return "build"
+	case strings.Contains(m, "phantom override is not a valid address"):
+		return "override"
+	case strings.Contains(m, "registration address is not an IP address"):
+		return "regaddr"
+	case strings.Contains(m, "IPv6 client chose IPv4 phantom"):
+		return "family"
+	}
+	return "other " + m
+}
+
+func c12RespLine(r *pb.RegistrationResponse, tr pb.TransportType, libver uint) string {
+	if r == nil {
+		return "-"
+	}
+	f := []string{"-", "-", "-", c12AnyTok(tr, libver, r.TransportParams)}
+	if r.Ipv4Addr != nil {
+		f[0] = strconv.FormatUint(uint64(*r.Ipv4Addr), 10)
+	}
+	if r.Ipv6Addr != nil {
+		f[1] = hex.EncodeToString(r.Ipv6Addr)
+	}
+	if r.DstPort != nil {
+		f[2] = strconv.FormatUint(uint64(*r.DstPort), 10)
+	}
+	return strings.Join(f, ",")
+}
+
+// c12StationCase runs the real NewRegistrationC2SWrapper on (a copy of) the wrapper for one family and
+// builds the driver line for the model's stationApply: the station's own derivation is the same call on the
+// wrapper without the response, once with the client's parameters and once with the response's.
+func c12StationCase(w *pb.C2SWrapper, v6 bool) (line, impl string, reg *lib.DecoyRegistration) {
+	w = proto.Clone(w).(*pb.C2SWrapper)
+	if w.GetRegistrationAddress() == nil {
+		w.RegistrationAddress = make([]byte, 16) // parseRegMessage
+	}
+	pl := w.GetRegistrationPayload()
+	tr, libver := pl.GetTransport(), uint(pl.GetClientLibVersion())
+	rr := w.GetRegistrationResponse()
+	derived := func(params *anypb.Any) string {
+		x := proto.Clone(w).(*pb.C2SWrapper)
+		x.RegistrationResponse = nil
+		if x.RegistrationPayload != nil {
+			x.RegistrationPayload.TransportParams = nil
+			if params != nil {
+				x.RegistrationPayload.TransportParams = proto.Clone(params).(*anypb.Any)
+			}
+		}
+		// the checks on the registrant's address are the model's, not part of the derivation
+		x.RegistrationAddress = []byte{192, 0, 2, 1}
+		r, err := c12StationCall(x, v6)
+		if err != nil {
+			return "f"
+		}
+		return fmt.Sprintf("%s:%d", c12AddrTok(r.PhantomIp), r.PhantomPort)
+	}
+	dC := derived(pl.GetTransportParams())
+	dR := dC
+	if rr.GetTransportParams() != nil {
+		dR = derived(rr.GetTransportParams())
+	}
+	line = strings.Join([]string{"station", vlib.B(v6), vlib.B(pl.GetDisableRegistrarOverrides()),
+		c12AnyTok(tr, libver, pl.GetTransportParams()), dC, dR, c12KindTok(net.IP(w.GetRegistrationAddress())),
+		c12RespLine(rr, tr, libver)}, "|")
+	var err error
+	reg, err = c12StationCall(proto.Clone(w).(*pb.C2SWrapper), v6)
+	if err != nil {
+		return line, "reject " + c12StationErrKind(err), nil
+	}
+	impl = strings.Join([]string{"ok", c12AddrTok(reg.PhantomIp), strconv.Itoa(int(reg.PhantomPort)), c12ParsedTok(reg.TransportParams())}, "|")
+	return line, impl, reg
+}
+
+type c12Sub struct {
+	line, impl string
+}
+
+// c12StationOracle: the forwarded bytes through the real parseRegMessage; every registration the station
+// builds carries the client's phantom (of its family), port and parameters, and the response never makes
+// the station build fewer registrations than it builds from the same message without it.
+func c12StationOracle(c *c12Case, raw []byte, fwd *pb.C2SWrapper, resp *pb.RegistrationResponse, out *vlib.Out, fail func(string, string)) (subs []c12Sub) {
+	parse := func(b []byte) (regs []*lib.DecoyRegistration, err error) {
+		defer func() {
+			if r := recover(); r != nil {
+				regs, err = nil, fmt.Errorf("panic: %v", r)
+			}
+		}()
+		return c12Station.VerifC12ParseRegMessage(b)
+	}
+	regs, err := parse(raw)
+	if err != nil && strings.HasPrefix(err.Error(), "panic:") {
+		fail("C12:station-panic", "parseRegMessage panicked on the forwarded message: "+err.Error())
+	}
+	stripped := proto.Clone(fwd).(*pb.C2SWrapper)
+	stripped.RegistrationResponse, stripped.RegRespBytes, stripped.RegRespSignature = nil, nil, nil
+	sb, _ := proto.Marshal(stripped)
+	bare, _ := parse(sb)
+	out.Count(fmt.Sprintf("station:built-%d-of-%d", len(regs), len(bare)))
+	if len(regs) < len(bare) {
+		fail("C12:station-rejects-forwarded", fmt.Sprintf("the station builds %d registration(s) from the forwarded message but %d from the same message without the registrar's response %s (error: %v)",
+			len(regs), len(bare), c12Resp(fwd.RegistrationResponse), err))
+	}
+	clientAny := fwd.GetRegistrationPayload().GetTransportParams()
+	for _, reg := range regs {
+		v6 := reg.PhantomIp.To4() == nil
 		fam := "IPv4"
 		if v6 {
 			fam = "IPv6"
 		}
+		out.Count("station:registration-" + fam)
 		if v6 {
 			if resp.Ipv6Addr != nil && !reg.PhantomIp.Equal(net.IP(resp.Ipv6Addr)) {
 				fail("C12:station-phantom-differs", fmt.Sprintf("%s: client was told %v, station registered %v", fam, net.IP(resp.Ipv6Addr), reg.PhantomIp))
@@ -687,7 +923,7 @@ func c12StationOracle(c *c12Case, fwd *pb.C2SWrapper, resp *pb.RegistrationRespo
 			fail("C12:station-port-differs", fmt.Sprintf("%s: client was told port %d, station registered %d", fam, resp.GetDstPort(), reg.PhantomPort))
 		}
 		// parameters: the response's if present and allowed, else the client's own
-		eff := clientCopy
+		eff := clientAny
 		if resp.TransportParams != nil && !c.disable {
 			eff = resp.TransportParams
 		}
@@ -699,20 +935,20 @@ func c12StationOracle(c *c12Case, fwd *pb.C2SWrapper, resp *pb.RegistrationRespo
 			}
 			want, _ = t.ParseParams(uint(c.libver), a)
 		}
-		got := reg.TransportParams()
-		wm, wok := want.(proto.Message)
-		gm, gok := got.(proto.Message)
-		same := (want == nil && got == nil) || (wok && gok && proto.Equal(wm, gm))
-		if !same {
+		if got := reg.TransportParams(); c12ParsedTok(got) != c12ParsedTok(want) {
 			fail("C12:station-params-differ", fmt.Sprintf("%s: station registered parameters %v, client uses %v", fam, got, want))
 		}
 	}
-	if fwd.GetRegistrationPayload().GetV4Support() && src.To4() != nil {
-		check(false)
+	// the model of NewRegistrationC2SWrapper, for the families parseRegMessage may try
+	for _, v6 := range []bool{false, true} {
+		if (v6 && !fwd.GetRegistrationPayload().GetV6Support()) || (!v6 && !fwd.GetRegistrationPayload().GetV4Support()) {
+			continue
+		}
+		line, impl, _ := c12StationCase(fwd, v6)
+		subs = append(subs, c12Sub{line, impl})
+		out.Count("station-case:" + strings.SplitN(impl, "|", 2)[0])
 	}
-	if fwd.GetRegistrationPayload().GetV6Support() {
-		check(true)
-	}
+	return
 }
 
 var c12StationTransports = map[pb.TransportType]lib.Transport{}
@@ -732,6 +968,12 @@ var c12SubnetSets = [][]c12Subnet{
 	{{"2001:db8:5::/64", 1, 443, prefix.Min}, {"10.9.0.0/24", 1, 443, prefix.PostLong}},
 	{{"10.1.0.0/24", 1, 443, prefix.PrefixID(55)}, {"10.2.0.0/24", 2, 80, prefix.GetLong}},
 	{{"10.1.0.0/32", 7, 443, prefix.Min}, {"255.255.255.0/24", 1, 80, prefix.TLSAlertFatal}},
+	// fractional weights (the configuration type is float64): a truncation to integers gives (0, 1, 0, 2)
+	{{"10.1.0.0/24", 0.5, 443, prefix.Min}, {"10.2.0.0/24", 1.5, 80, prefix.GetLong}, {"10.3.0.0/24", 0.25, 22, prefix.OpenSSH2}, {"10.4.0.0/24", 2.75, 53, prefix.DNSOverTCP}},
+	// all weights below one
+	{{"10.1.0.0/24", 0.125, 443, prefix.TLSClientHello}, {"10.2.0.0/24", 0.375, 80, prefix.HTTPResp}, {"10.3.0.0/24", 0.5, 22, prefix.Min}},
+	// very unequal weights
+	{{"10.1.0.0/24", 5000, 443, prefix.Min}, {"10.2.0.0/24", 1, 80, prefix.GetLong}, {"10.3.0.0/24", 2500.5, 22, prefix.OpenSSH2}},
 }
 
 func c12PrefixAny(id *int32, rnd *bool, pre []byte, typed bool) *anypb.Any {
@@ -877,13 +1119,19 @@ func c12Setup(t *testing.T) string {
 	devnull, _ := os.OpenFile(os.DevNull, os.O_WRONLY, 0)
 	saved := os.Stdout
 	os.Stdout = devnull
-	c12Station = lib.NewRegistrationManager(&lib.RegConfig{})
+	c12Station = lib.NewRegistrationManager(&lib.RegConfig{EnableIPv4: true, EnableIPv6: true})
 	os.Stdout = saved
 	if c12Station == nil {
 		t.Fatal("station RegistrationManager could not be built")
 	}
+	c12Station.Logger = stationlog.New(io.Discard, "", 0)
 	c12StationTransports[pb.TransportType_Min] = min.Transport{}
-	c12StationTransports[pb.TransportType_Prefix] = prefix.DefaultSet()
+	// the station knows the prefixes the registrar's override file names (id 77 of the parsed-prefixes
+	// override below): a deployment in which the registrar hands out prefixes its stations do not know is a
+	// configuration error, not a property of the code
+	stPrefix := prefix.DefaultSet()
+	stPrefix.SupportedPrefixes[prefix.PrefixID(77)] = stPrefix.SupportedPrefixes[prefix.Min]
+	c12StationTransports[pb.TransportType_Prefix] = stPrefix
 	for k, v := range c12StationTransports {
 		if err := c12Station.AddTransport(k, v); err != nil {
 			t.Fatal(err)
@@ -910,16 +1158,16 @@ type c12Emit func(kind string, n int, res c12Out, oracleOnly bool)
 
 // sweep: for every weighted subnet a draw in the middle of its interval must select it.
 func c12Sweep(sink *vlib.Out, emit c12Emit, tag string, subs []c12Subnet, tr pb.TransportType) {
-	total := 0
+	total := 0.0
 	for _, s := range subs {
 		total += s.weight
 	}
 	if total == 0 {
 		return
 	}
-	acc, n := 0, 0
+	acc, n := 0.0, 0
 	for i, s := range subs {
-		lo, hi := float64(acc)/float64(total), float64(acc+s.weight)/float64(total)
+		lo, hi := acc/total, (acc+s.weight)/total
 		acc += s.weight
 		_, nn, _ := net.ParseCIDR(s.cidr)
 		if s.weight == 0 || nn.IP.To4() == nil {
@@ -952,7 +1200,7 @@ func c12Sweep(sink *vlib.Out, emit c12Emit, tag string, subs []c12Subnet, tr pb.
 					got = fmt.Sprintf("subnet %d (%s)", res.chosen, subs[res.chosen].cidr)
 				}
 				res.fails = append(res.fails, [2]string{"C12:weighted-subnet-unreachable",
-					fmt.Sprintf("draw u=%.6f lies in the interval [%.4f,%.4f) of subnet %d (%s, weight %d of %d) but the registrar used %s",
+					fmt.Sprintf("draw u=%.6f lies in the interval [%.6f,%.6f) of subnet %d (%s, weight %v of %v) but the registrar used %s",
 						mrand.New(mrand.NewSource(c.seed)).Float64(), lo, hi, i, s.cidr, s.weight, total, got)})
 			}
 			sink.Count("gen:sweep")
@@ -1010,6 +1258,9 @@ func TestVerifC12(t *testing.T) {
 func c12Report(out *vlib.Out, tag string, n int, res c12Out, oracleOnly bool) {
 	if !oracleOnly {
 		out.Case(res.line, res.impl, res.nontrivial)
+	}
+	for _, sub := range res.subs {
+		out.Case(sub.line, sub.impl, strings.HasPrefix(sub.impl, "ok"))
 	}
 	out.Checked()
 	for _, f := range res.fails {
